@@ -1574,7 +1574,10 @@ def rule_N0(ctx):
 
     for fname in ("run._run_main_sampler", "run._run_burnin"):
         f = prog.fn(fname)
-        loops = [n for n in ast.walk(f.node) if isinstance(n, ast.For)]
+        # the sweep loop may have moved into a helper newer than the rules (a generator of chain states, say)
+        from ..astutil import new_helper_scope
+
+        loops = [n for g_ in new_helper_scope(prog, f) for n in ast.walk(g_.node) if isinstance(n, ast.For)]
         outer = [l for l in loops if _trace(l.body, f.module, False, 0) and any(n == "sample_tree" for n, _ in _trace(l.body, f.module, False, 0))]
         ok = False
         if outer:
